@@ -63,7 +63,7 @@ def gen_callout(rng):
 def gen_src(rng, sid=b'PS', callouts=None):
     callouts = rng.randrange(0, 4) if callouts is None else callouts
     kind = rng.choice([b'BD', b'11', b'BC', b'B7'])
-    asc = (kind + rng.choice([b'00', b'8A']) + rng.choice([b'2030', b'1010', b'E510', b'9999']) + b' ' * 24)[:32]
+    asc = (kind + rng.choice([b'00', b'8A']) + rng.choice([b'2030', b'1010', b'E510', b'9999']) + rng.choice([b' ', b' ', b'\0']) * 24)[:32]
     cs = b''.join(gen_callout(rng) for _ in range(callouts))
     sub = b''
     flags = rng.choice([0x00, 0x80, 0x14])
